@@ -9,6 +9,7 @@ import Deb822Verif.Spec.DocGrammar
 import Deb822Verif.Spec.DocSDec
 import Deb822Verif.Spec.LossyCanon
 import Deb822Verif.Props.C01More
+import Deb822Verif.Lemmas.DocLines
 namespace Deb822Verif.Driver.Deb
 open Deb822Verif Proto Deb
 
@@ -120,7 +121,9 @@ def buildDoc (ls : List Line) (fnl : Bool) : Option DocS :=
 /-- is the line list a well-formed document in the sense of `Spec.DocS.WF` (the domain of the
     C03 theorems)? Also cross-checks the two specifications (flat and structured) on it. -/
 def specVerdict (ls : List Spec.Line) (fnl : Bool) : String :=
-  match buildDoc ls fnl with
+  -- `Spec.docOfLines` is the total function of Lemmas/DocLines.lean (C03_lines_complete / _wf_iff);
+  -- the `partial def buildDoc` above is kept for reference only
+  match Spec.docOfLines ls fnl with
   | none => "wf=0"
   | some d =>
     if decide d.WF then
